@@ -199,6 +199,7 @@ func RunTimedWorld(r sim.Src, mons []*sim.Mon, keepLog bool, sh TimedShape) *sim
 			ratio = 0
 		}
 		cfg.MaxTimePerBlock = tpb * time.Duration(ratio) / 2
+		cfg.SubscribeProbe = ratio == 0 // extension off: the application may still have its subscription callback in place
 		o.Horizon = time.Duration(o.Heights+2) * (cfg.MaxTimePerBlock + 2*tpb)
 		o.MaxLat = tpb / 50
 		o.ResetLag = 0
